@@ -1,5 +1,5 @@
 from vlib.runner import Obl
-from props.common import ragged_obligations, vault_obligations, krow_obligations, ktab_obligations, TRUSTED as _T
+from props.common import empty_table_obligations, ragged_obligations, bulk_obligations, kget_obligations, vault_obligations, krow_obligations, ktab_obligations, TRUSTED as _T
 
 PROPERTY = "C02"
 EXPLANATION = (
@@ -30,3 +30,8 @@ for _fn in ['arow_set_small']:
                            stubs=["/verif/shadow/lxml (symdom)"]))
 
 OBLIGATIONS += ragged_obligations(2)
+OBLIGATIONS += bulk_obligations(2)
+# whole-table transformations also leave the live maps equal to those of the XML read afresh
+OBLIGATIONS += kget_obligations(["koptimize", "krstrip"], quick=("koptimize", "krstrip"), deep=False)
+
+OBLIGATIONS += empty_table_obligations()
